@@ -1388,6 +1388,141 @@ def rule_r7(chk, prog):
               'are proposed', loc=mc.loc(rc), nontrivial=True)
 
 
+# --------------------------------------------------------------------- R8
+def rule_r8(chk, prog):
+    chk.rule('C16.R8', 'the memo of get_sort is transparent: a cached '
+             '"unknown" (None) is a hit like any other value, and every '
+             'computed result - known or unknown - is stored under every key '
+             'the function probes')
+    from ..cfg import enumerate_paths
+    from ..astutil import module_sentinels
+    m = prog.mod('smtlib')
+    f = m.func('get_sort')
+    where = 'smtlib.get_sort'
+    ps = params_of(f)
+    gl = global_decls(f)
+    # the memo: a module-level dict this function stores into
+    caches = set()
+    for st in walk_no_nested(f):
+        if isinstance(st, ast.Assign):
+            for t in st.targets:
+                if isinstance(t, ast.Subscript) and isinstance(
+                        t.value, ast.Name) and t.value.id in m.globals:
+                    caches.add(t.value.id)
+    if len(caches) != 1:
+        raise AnalysisError(
+            f'C16.R8: get_sort stores into {sorted(caches)}; exactly one '
+            'module-level memo expected')
+    cache = caches.pop()
+    sents = module_sentinels(m)
+    compute = [c for c in calls_in(f)
+               if isinstance(c.func, ast.Name) and c.func.id in m.funcs
+               and c.args and isinstance(c.args[0], ast.Name)
+               and c.args[0].id == ps[0]]
+    if len(compute) != 1:
+        raise AnalysisError('C16.R8: the call that computes the sort is not '
+                            'unique in get_sort')
+    comp = compute[0]
+    # ---- probes
+    probed = set()
+    nprobe = 0
+    for x in walk_no_nested(f):
+        if isinstance(x, ast.Compare) and len(x.ops) == 1 and isinstance(
+                x.ops[0], (ast.In, ast.NotIn)) and isinstance(
+                    x.comparators[0], ast.Name) and \
+                x.comparators[0].id == cache:
+            probed.add(unparse(x.left))
+            nprobe += 1
+        if isinstance(x, ast.Call) and isinstance(
+                x.func, ast.Attribute) and isinstance(
+                    x.func.value, ast.Name) and x.func.value.id == cache:
+            if x.func.attr == 'get' and x.args:
+                probed.add(unparse(x.args[0]))
+                nprobe += 1
+                dflt = x.args[1] if len(x.args) > 1 else kw(x, 'default')
+                ok = isinstance(dflt, ast.Name) and dflt.id in sents
+                chk.check('C16.R8', where, x, ok,
+                          f'the memo is probed with {unparse(x)}: a cached '
+                          '"unknown" (None) cannot be told from a miss, so '
+                          'terms of unknown sort are inferred again on every '
+                          'call (exponential in the nesting depth, since '
+                          'the inference asks for the same operand twice) '
+                          'and the structural entry that marks index '
+                          'numerals as sort-less is ignored',
+                          loc=m.loc(x), nontrivial=True)
+            elif x.func.attr in ('setdefault', 'pop', 'popitem', 'clear',
+                                 'update'):
+                raise AnalysisError(
+                    f'C16.R8: {m.loc(x)}: memo used through '
+                    f'.{x.func.attr}(), not modelled')
+    chk.floor('C16.R8', 'probes of the sort memo', nprobe, 2)
+    # reads cache[K] must be dominated by "K in cache" (or sit in a try
+    # with a KeyError handler)
+    for x in walk_no_nested(f):
+        if isinstance(x, ast.Subscript) and isinstance(
+                x.ctx, ast.Load) and isinstance(
+                    x.value, ast.Name) and x.value.id == cache:
+            key = unparse(x.slice)
+            probed.add(key)
+            facts = facts_at(f, x)
+            ok = (f'{key} in {cache}', True) in facts
+            if not ok:
+                p_ = getattr(x, '_parent', None)
+                while p_ is not None and p_ is not f:
+                    if isinstance(p_, ast.Try) and any(
+                            h.type is not None and 'KeyError' in unparse(
+                                h.type) for h in p_.handlers):
+                        ok = True
+                    p_ = getattr(p_, '_parent', None)
+            chk.check('C16.R8', where, x, ok,
+                      f'{unparse(x)} is read without a membership test of '
+                      'that key', loc=m.loc(x), nontrivial=True)
+    # ---- stores on every path through the computation
+    cfg = cfg_of(f)
+    cn = expr_owner_node(cfg, comp)
+    resvar = None
+    if cn is not None and isinstance(cn.ast, ast.Assign) and isinstance(
+            cn.ast.targets[0], ast.Name) and cn.ast.value is comp:
+        resvar = cn.ast.targets[0].id
+    if resvar is None:
+        raise AnalysisError('C16.R8: the computed sort is not bound to a '
+                            'local ("sort = _get_sort_aux(node)")')
+    paths = enumerate_paths(cfg, cn, lambda n: False)
+    npath = 0
+    for p in paths:
+        if p.end is not cfg.exit:
+            continue
+        npath += 1
+        stored = set()
+        for n in p.nodes:
+            a = n.ast
+            if n.kind == 'stmt' and isinstance(a, ast.Assign):
+                for t in a.targets:
+                    if isinstance(t, ast.Subscript) and isinstance(
+                            t.value, ast.Name) and t.value.id == cache and \
+                            isinstance(a.value, ast.Name) and \
+                            a.value.id == resvar:
+                        stored.add(unparse(t.slice))
+        missing = sorted(probed - stored)
+        from ..pathutil import describe_path
+        chk.check('C16.R8', where, f'{describe_path(p)}: result stored '
+                  f'under {sorted(probed)}', not missing,
+                  f'on this path the computed sort is returned without '
+                  f'being stored under {missing}: an "unknown" result is '
+                  'computed again on every call, and the structural entry '
+                  '"unknown" that keeps a copy of a marked index numeral '
+                  'from being inferred as Int is never created',
+                  loc=m.loc(comp), nontrivial=True)
+        last = p.nodes[-2].ast if len(p.nodes) > 1 else None
+        if isinstance(last, ast.Return):
+            chk.check('C16.R8', where, last, isinstance(
+                last.value, ast.Name) and last.value.id == resvar,
+                      'the value returned after the computation is not the '
+                      'computed sort', loc=m.loc(last), nontrivial=True)
+    chk.floor('C16.R8', 'paths from the computation to the return', npath,
+              1)
+
+
 def run(tier):
     prog = Program()
     chk = Check(
@@ -1413,6 +1548,7 @@ def run(tier):
     chk.guard(rule_r5, chk, prog)
     chk.guard(rule_r6, chk, prog)
     chk.guard(rule_r7, chk, prog)
+    chk.guard(rule_r8, chk, prog)
     chk.extra['exhaustive'] = True
     extra = None
     if tier == 'thorough':
